@@ -279,7 +279,12 @@ impl Rule {
     let (_, rest) = rest.split_at(relay.len());
 
     if !rest.is_empty() {
-      warn!("Extra elements in GrantElement. Ignoring.");
+      // The elements of a rule must come in the order domains, publish*, subscribe*, relay*.
+      // Do not accept a rule with some of its (signed) criteria silently dropped.
+      return Err(parse_config_error(
+        "Unexpected element in rule. Expected order is domains, publish, subscribe, relay."
+          .to_string(),
+      ));
     }
 
     Ok(Rule {
